@@ -418,3 +418,81 @@ def noexcept_obligations(F, S, run):
     fx = [f for f in F.fixture_functions.values() if f.qn == "fixture::Nodes::IsLast"]
     hit = bool(fx) and any(x.status == "violated" for x in noexcept_honest(F, S, [], functions=fx)[0])
     run.fixture("fixtures/raw_read.cpp: a noexcept accessor that calls a throwing verifier is reported by R-NOEXCEPT", hit)
+
+
+# ------------------------------------------------------------------------------------------
+def handlers_rethrow(F, S, scope, functions=None):
+    """R-ERR: an exception handler never swallows an error: every path through the handler's body ends in a throw (a rethrow,
+    or a new exception that wraps the old one). A handler that can fall out of its bottom turns a refusal into a normal
+    return with partial results. Returns (obligations, number of handlers)."""
+    out = []
+    n = 0
+
+    def always_throws(fn, sid):
+        nd = fn.n(sid)
+        k = nd["k"]
+        if k == "CXXThrowExpr":
+            return True
+        if k in ("ExprWithCleanups", "ParenExpr"):
+            ks = fn.kids(sid)
+            return len(ks) == 1 and always_throws(fn, ks[0])
+        if k == "CompoundStmt":
+            return any(always_throws(fn, c) for c in fn.kids(sid))
+        if k == "IfStmt":
+            return nd.get("else") is not None and always_throws(fn, nd["then"]) and always_throws(fn, nd["else"])
+        if k in CALLS:
+            return S.noreturn_call(nd)
+        return False
+    fns = functions if functions is not None else [f for f in F.functions.values() if any(x in f.file for x in scope)]
+    for fn in sorted(fns, key=lambda f: f.key):
+        if not fn.cfg or fn.d.get("implicit"):
+            continue
+        for nd in fn.nodes:
+            if nd["k"] != "CXXCatchStmt":
+                continue
+            n += 1
+            inst = "%s#handler@%s" % (fn.qn, nd.get("l"))
+            req = "an exception handler ends in a throw on every path (errors are wrapped or passed on, never swallowed)"
+            body = nd.get("body")
+            if body is not None and always_throws(fn, body):
+                out.append(ok("R-ERR", inst, fn.loc(nd["id"]), fn.qn, req, "every path through the handler throws"))
+            else:
+                out.append(bad("R-ERR", inst, fn.loc(nd["id"]), fn.qn, req,
+                               "the handler can complete normally: the operation goes on (or returns) as if the error had not happened"))
+    return out, n
+
+
+# ------------------------------------------------------------------------------------------
+def verified_names_final(F, S, fn, label):
+    """R-ORDER: the name list handed to VerifySortedContainerHasNoDuplicateNames is the list that is packed: after the call
+    nothing assigns to it, calls a mutating member on it or hands it out by mutable reference (e.g. stripping the
+    extensions *after* the check lets `a.wav` and `a.wave` through as two members named `a`)."""
+    Vq = "OP2Utility::Archive::ArchiveFile::VerifySortedContainerHasNoDuplicateNames"
+    calls = [nd for nd in fn.nodes if nd["k"] in CALLS and (nd.get("fq") or "") == Vq and nd.get("args")]
+    inst = "%s#verified-names-final" % label
+    req = "the names checked for duplicates are the names packed: the list is not changed after the check"
+    if len(calls) != 1:
+        raise AnalysisBroken("%s: expected one call of VerifySortedContainerHasNoDuplicateNames" % fn.qn)
+    v = calls[0]
+    names = fn.term(v["args"][0])
+    later = []
+    for nd in fn.nodes:
+        if nd["id"] <= v["id"]:
+            continue
+        k = nd["k"]
+        if k in ("BinaryOperator", "CompoundAssignOperator") and nd.get("op", "").endswith("=") and nd["op"] not in ("==", "!=", "<=", ">=") \
+                and fn.term(fn.kids(nd["id"])[0]) == names:
+            later.append(nd)
+        elif k == "CXXOperatorCallExpr" and nd.get("op") in ("=", "+=") and nd.get("args") and fn.term(nd["args"][0]) == names:
+            later.append(nd)
+        elif k == "CXXMemberCallExpr" and "obj" in nd and fn.term(nd["obj"]) == names and not nd.get("mconst") \
+                and nd.get("fname") not in ("begin", "end", "size", "empty", "data", "at", "front", "back", "cbegin", "cend"):
+            later.append(nd)
+        elif k in CALLS and nd.get("args"):
+            for a, p in zip(nd["args"], nd.get("params") or []):
+                if fn.term(a) == names and p.get("ref") and not p.get("const_ref"):
+                    later.append(nd)
+    if not later:
+        return [ok("R-ORDER", inst, fn.loc(v["id"]), fn.qn, req, "no change of %s after the check" % fmt_term(names))]
+    return [bad("R-ORDER", inst, fn.loc(later[0]["id"]), fn.qn, req,
+                "%s is changed at %s, after it was checked at %s" % (fmt_term(names), fn.loc(later[0]["id"]), fn.loc(v["id"])))]
